@@ -3,6 +3,7 @@ package p_mixer
 import (
 	"runtime/debug"
 	"sort"
+	"strings"
 	"testing"
 
 	"pgregory.net/rapid"
@@ -34,38 +35,68 @@ func allSeqs(alpha, maxLen int) [][]int {
 	return out
 }
 
-// allPrograms returns every call program over {h,n,r} of length 0..depth, shortest first.
-func allPrograms(depth int) []string {
+// allPrograms returns every call program over the first `letters` letters of "hnri" of length 0..depth,
+// shortest first.
+func allPrograms(letters, depth int) []string {
 	var out []string
-	enum.Lists(3, depth, 0, 1, func(idx []int) {
+	enum.Lists(letters, depth, 0, 1, func(idx []int) {
 		b := make([]byte, len(idx))
 		for i, e := range idx {
-			b[i] = "hnr"[e]
+			b[i] = "hnri"[e]
 		}
 		out = append(out, string(b))
 	})
 	return out
 }
 
+// programs: every program over {h,n,r,i} up to depth4, plus every program over {h,n,r} of length
+// depth4+1..depth3 (shortest first).
+func programs(depth4, depth3 int) []string {
+	out := allPrograms(4, depth4)
+	for _, p := range allPrograms(3, depth3) {
+		if len(p) > depth4 {
+			out = append(out, p)
+		}
+	}
+	return out
+}
+
+var kindPairsResettable = [][2]string{{KSlice, KSlice}, {KSlice, KDisparity}, {KDisparity, KSlice}, {KDisparity, KDisparity}}
+var kindPairsNoReset = [][2]string{{KNoReset, KSlice}, {KSlice, KNoReset}, {KNoReset, KNoReset}, {KNoReset, KDisparity}, {KDisparity, KNoReset}}
+
 func TestC18Exhaustive(t *testing.T) {
 	st := vstat.For(prop)
 	shard, shards := vstat.Shard()
 	total := int64(0)
 	combo := 0
-	// part 1: inputs of length 0..3, programs to depth 5 (quick) / 7 (thorough).
-	// part 2 (thorough): inputs of length 0..4 with at least one of length 4, programs to depth 5.
-	type part struct{ maxLen, depth, needLen int }
-	parts := []part{{3, vstat.Pick(5, 7), 0}}
+	// part 1: inputs of length 0..3; programs over {h,n,r,i} to depth 4 (quick) / 5 (thorough) and over {h,n,r} to depth 5 / 7.
+	// part 2 (thorough): inputs of length 0..4 with at least one of length 4; depths 3 and 5.
+	// Reductions (the rapid unit has none of them):
+	//  * a pair with a non-resettable source is run only with programs whose first r is their last letter: the
+	//    wrapper delegates every call, so without r it behaves like the slice source, and the case ends at the
+	//    first (refused) Reset;
+	//  * the inputs after a re-Init are the swapped pair (B,A) and, as a second variant, two empty inputs.
+	type part struct{ maxLen, depth4, depth3, needLen int }
+	parts := []part{{3, vstat.Pick(4, 5), vstat.Pick(5, 7), 0}}
 	if vstat.Thorough() {
-		parts = append(parts, part{4, 5, 4})
+		parts = append(parts, part{4, 3, 5, 4})
 	}
 	desc := []map[string]any{}
 	for _, pt := range parts {
 		seqs := allSeqs(3, pt.maxLen)
-		progs := allPrograms(pt.depth)
+		progs := programs(pt.depth4, pt.depth3)
 		n := int64(0)
 		// programs are the outer loop so that the first failure reported has a shortest program
 		for _, prog := range progs {
+			firstR := strings.IndexByte(prog, 'r')
+			kinds := kindPairsResettable
+			if firstR >= 0 && firstR == len(prog)-1 {
+				kinds = append(append([][2]string{}, kindPairsResettable...), kindPairsNoReset...)
+			}
+			variants := 1
+			if strings.IndexByte(prog, 'i') >= 0 {
+				variants = 2
+			}
 			for _, a := range seqs {
 				for _, b := range seqs {
 					if len(a) < pt.needLen && len(b) < pt.needLen {
@@ -75,10 +106,14 @@ func TestC18Exhaustive(t *testing.T) {
 					if combo%shards != shard {
 						continue
 					}
-					for _, sel := range Selectors {
-						for _, ka := range Kinds {
-							for _, kb := range Kinds {
-								c := Case{A: a, B: b, KA: ka, KB: kb, Sel: sel, Prog: prog}
+					for variant := 0; variant < variants; variant++ {
+						var a2, b2 []int
+						if variant == 0 {
+							a2, b2 = b, a
+						}
+						for _, sel := range Selectors {
+							for _, k := range kinds {
+								c := Case{A: a, B: b, A2: a2, B2: b2, KA: k[0], KB: k[1], Sel: sel, Prog: prog}
 								info, v := Run(c)
 								st.Report(t, "TestC18Exhaustive", c, v)
 								record(c, info)
@@ -91,7 +126,8 @@ func TestC18Exhaustive(t *testing.T) {
 		}
 		total += n
 		desc = append(desc, map[string]any{"alphabet": 3, "max_input_len": pt.maxLen, "some_input_len_at_least": pt.needLen,
-			"sequences_per_input": len(seqs), "program_depth": pt.depth, "programs": len(progs), "cases_this_shard": n})
+			"sequences_per_input": len(seqs), "program_depth_hnri": pt.depth4, "program_depth_hnr": pt.depth3,
+			"programs": len(progs), "cases_this_shard": n})
 	}
 	st.SetExhaustive("mixer_pairs_x_selectors_x_kinds_x_programs", map[string]any{
 		"parts": desc, "selectors": len(Selectors), "source_kinds_per_input": len(Kinds), "cases_this_shard": total, "shards": shards})
@@ -128,16 +164,23 @@ func genCase(t *rapid.T) Case {
 	c.KB = kinds.Draw(t, "kb")
 	c.A = genSeq(t, "a", c.Sel)
 	c.B = genSeq(t, "b", c.Sel)
+	initW := rapid.SampledFrom([]int{0, 1, 1, 3}).Draw(t, "initWeight")
+	if initW > 0 {
+		c.A2 = genSeq(t, "a2", c.Sel)
+		c.B2 = genSeq(t, "b2", c.Sel)
+	}
 	resetW := rapid.SampledFrom([]int{0, 1, 3}).Draw(t, "resetWeight")
 	call := rapid.Custom(func(t *rapid.T) byte {
-		k := rapid.IntRange(0, 19+resetW).Draw(t, "call")
+		k := rapid.IntRange(0, 19+resetW+initW).Draw(t, "call")
 		switch {
 		case k < 11:
 			return 'n'
 		case k < 20:
 			return 'h'
-		default:
+		case k < 20+resetW:
 			return 'r'
+		default:
+			return 'i'
 		}
 	})
 	maxProg := vstat.Pick(120, 200)
